@@ -105,7 +105,7 @@ func casesFor(sh *shape, op string) []caseDef {
 
 // the quick tier explores the same product over this subset of the shapes
 var quickShapes = map[string]bool{
-	"lin3/plain": true, "lin3/lfs": true,
+	"lin3/plain": true, "lin3/lfs": true, "lin3/attrs": true,
 	"merge/plain": true, "merge/modes": true, "merge/lfs": true,
 	"fork/tracked": true,
 	"pushed/lfs": true, "exotic-msg/lfs": true,
@@ -642,10 +642,12 @@ func (ev *env) selector(sh *shape, ps pathSel, op string, before *snap, rng map[
 		}
 		if ps.fixup {
 			want := tracked(commit)[p]
-			// the same tree entry evaluated differently in another selected commit?
+			// known defect class (finding 4): the rewriter caches its decision per (path, blob).  A deviation in this commit
+			// belongs to that class only if a selected commit that is rewritten BEFORE this one (i.e. not one of its
+			// descendants: the rewriter goes parents first) has the same entry and evaluates it the other way.
 			special := ""
 			for c2 := range rng {
-				if c2 == commit {
+				if c2 == commit || before.isAncestor(commit, c2) {
 					continue
 				}
 				if e2, ok := before.files[c2][p]; ok && e2.id == e.id && tracked(c2)[p] != want {
